@@ -530,6 +530,7 @@ func c05RunVariant(c *core.C, ctx context.Context, client bufcheck.Client, ws *c
 		c.Count("cli_comparisons_with_options", 1)
 		c.Distinct("cli_option_configs", version+"/"+x.Opts.String())
 		c05CLICompare(c, planted, pr, cfg, union, ctxKey, what, idx)
+		c05OptionsOnly(c, ctx, client, planted, pr, cfg, ctxKey, what)
 	} else if unionOK && len(x.Extra) == 0 && *cliBudget > 0 && c.Rand.IntN(12) == 0 {
 		*cliBudget--
 		c05CLICompare(c, planted, pr, cfg, union, ctxKey, what, idx)
